@@ -24,7 +24,7 @@ from mc.core import Stats
 from mc.site import Site, classify_link
 
 PROP = "C17"
-KINDS = ["P", "U", "D", "N", "F", "H", "B", "V"]  # V = two pages whose names differ only after a dot: x.2.md, x.3.md
+KINDS = ["P", "U", "D", "N", "F", "H", "B", "V", "E"]  # V = two pages whose names differ only after a dot: x.2.md, x.3.md; E = an empty (zero-byte) .md file
 SRC = {"src/m.f90": "module mod1\n!! module doc\ninteger :: v\n!! var\nend module mod1\n", "media/pic.png": "png"}
 
 
@@ -74,17 +74,20 @@ def materialise(tree, ordered, copy_mode):
             names.append((kind, stem, e))
         # ordering metadata of this directory's index.md
         listed = []
-        candidates = [(k, s) for (k, s, _) in names if k in ("P", "D", "U")]
+        candidates = [(k, s) for (k, s, _) in names if k in ("P", "D", "U", "E")]
         # (dotted page names are left out of ordered_subpage lists: they follow alphabetically)
-        if ordered == "reversed":
-            listed = [(s + ".md" if k in ("P", "U") else s) for (k, s) in reversed(candidates)]
+        if ordered in ("reversed", "reversed-cont"):
+            listed = [(s + ".md" if k in ("P", "U", "E") else s) for (k, s) in reversed(candidates)]
         elif ordered == "partial" and candidates:
             k, s = candidates[-1]
-            listed = [s + ".md" if k in ("P", "U") else s]
+            listed = [s + ".md" if k in ("P", "U", "E") else s]
         elif ordered == "missing" and is_root:
             listed = ["no_such_page.md"]
             exp["missing"] = "no_such_page.md"
         meta = "".join(f"ordered_subpage: {x}\n" for x in listed)
+        if ordered == "reversed-cont" and listed:
+            # the whole list on continuation lines below the bare keyword
+            meta = "ordered_subpage:\n" + "".join(f"    {x}\n" for x in listed)
         ndirs = [s for (k, s, _) in names if k == "N"]
         copy_here = []
         if copy_mode == "page" and ndirs:
@@ -100,7 +103,7 @@ def materialise(tree, ordered, copy_mode):
         title = "T" + (rel.replace("/", "_") or "root")
         files[f"pages/{rel}index.md"] = page_text(title, depth, meta)
         # effective order
-        by_name = {(s + ".md" if k in ("P", "U", "H", "B") else s): (k, s, e) for (k, s, e) in names if k != "V"}
+        by_name = {(s + ".md" if k in ("P", "U", "H", "B", "E") else s): (k, s, e) for (k, s, e) in names if k != "V"}
         for (k, s, e) in names:
             if k == "V":
                 by_name[s + ".2.md"] = ("V2", s, e)
@@ -121,6 +124,9 @@ def materialise(tree, ordered, copy_mode):
                 titles.append(f"T{rel.replace('/', '_')}{s}v{n}")
             elif k == "U":
                 files[f"pages/{rel}{s}.md"] = page_text(None, depth)
+                exp["untitled"].append(f"{rel}{s}.md")
+            elif k == "E":
+                files[f"pages/{rel}{s}.md"] = ""
                 exp["untitled"].append(f"{rel}{s}.md")
             elif k == "D":
                 sub_titles = build(e[1], f"{rel}{s}/", depth + 1, False)
@@ -168,6 +174,12 @@ BASE_URL = "https://example.org/docs"
 def run_case(st: Stats, tree, ordered, copy_mode, url_mode=False):
     files, exp = materialise(tree, ordered, copy_mode)
     opts = dict(page_dir="pages", media_dir="media")
+    latin = url_mode == "latin-1"
+    url_mode = url_mode is True
+    if latin:
+        # the whole project is written in Latin-1 (`encoding: latin-1`): every page carries a word that is not valid UTF-8 in that encoding
+        opts["encoding"] = "latin-1"
+        files = {k: ((v + "\ncaf\xe9 cr\xe8me\n").encode("latin-1") if (k.startswith("pages/") and k.endswith(".md") and v and "/ignored.md" not in k) else v) for k, v in files.items()}
     if url_mode:
         # the documentation will be served from a known address: links into it are absolute URLs below that address
         opts["project_url"] = BASE_URL
@@ -179,8 +191,8 @@ def run_case(st: Stats, tree, ordered, copy_mode, url_mode=False):
     r = fordrun.build(files, opts, stage="write", proj_body="front\n")
     st.evaluations += 1
     st.transitions += 1
-    stratum = f"ordered:{ordered}/copy:{copy_mode}" + ("/project_url" if url_mode else "")
-    inp = dict(tree=repr(tree), ordered=ordered, copy_mode=copy_mode, url_mode=url_mode, page_files=sorted(f for f in files if f.startswith("pages/")))
+    stratum = f"ordered:{ordered}/copy:{copy_mode}" + ("/project_url" if url_mode else "") + ("/latin-1" if latin else "")
+    inp = dict(tree=repr(tree), ordered=ordered, copy_mode=copy_mode, url_mode=("latin-1" if latin else url_mode), page_files=sorted(f for f in files if f.startswith("pages/")))
     kinds = sorted({(e if isinstance(e, str) else e[0]) for e in flatten(tree)})
     feats = dict(ordered=ordered, copy_mode=copy_mode, kinds="".join(kinds), depth=depth_of(tree), url_mode=url_mode)
     st.nontrivial.add(core.digest([repr(tree), ordered, copy_mode, url_mode]))
@@ -205,6 +217,13 @@ def run_case(st: Stats, tree, ordered, copy_mode, url_mode=False):
             bad += 1
             st.violation("page-set-differs", stratum, dict(feats, extra=",".join(sorted(set(got_pages) - set(want_pages)))[:80], missing=",".join(sorted(set(want_pages) - set(got_pages)))[:80]),
                          inp, got_pages, want_pages)
+        if latin:
+            for pth in want_pages:
+                pg = site.pages.get("page/" + pth)
+                if pg is not None and "caf\xe9 cr\xe8me" not in pg.text:
+                    bad += 1
+                    st.violation("page-text-garbled", stratum, feats, inp, dict(page=pth, text=pg.text[-120:]), "the words written in the project's encoding")
+                    break
         for f in exp["copied"]:
             if f"page/{f}" not in site.files:
                 bad += 1
@@ -328,7 +347,7 @@ def gen_cases(tier):
         for t in trees(n, 3):
             ks = [e if isinstance(e, str) else e[0] for e in flatten(t)]
             if sum(k in ("P", "D", "U") for k in ks) >= 2 or n <= 2:
-                for o in ("reversed", "partial"):
+                for o in ("reversed", "partial", "reversed-cont"):
                     yield (t, o, "absent")
             if "N" in ks:
                 for c in ("page", "project", "empty-override", "project+rootpage"):
@@ -340,6 +359,10 @@ def gen_cases(tier):
     for n in (0, 1, 2) if tier == "quick" else (0, 1, 2, 3):
         for t in trees(n, 3):
             yield (t, "absent", "absent", True)
+    # the project written in another encoding than UTF-8
+    for n in (0, 1, 2) if tier == "quick" else (0, 1, 2, 3):
+        for t in trees(n, 3):
+            yield (t, "absent", "absent", "latin-1")
     if tier == "thorough":
         # 5 entries: page/dir kinds only (the kinds that shape the mirror)
         global KINDS
@@ -355,7 +378,7 @@ def gen_cases(tier):
 def work(chunk):
     st = Stats()
     for (t, o, c, *more) in chunk:
-        run_case(st, t, o, c, bool(more and more[0]))
+        run_case(st, t, o, c, more[0] if more else False)
     return st
 
 
